@@ -295,7 +295,11 @@ func c07Cmd(n ast.Node) string {
 		if typ == "" {
 			typ = "?"
 		}
-		return "{@param" + q + " " + n.Name + ": " + typ + "}\n"
+		dflt := ""
+		if n.Default != nil {
+			dflt = " = " + c07Expr(n.Default)
+		}
+		return "{@param" + q + " " + n.Name + ": " + typ + dflt + "}\n"
 	case *ast.SoyDocNode:
 		s := "/**\n"
 		for _, p := range n.Params {
@@ -337,8 +341,9 @@ type c07Site struct {
 }
 
 type c07Param struct {
-	name     string
-	optional bool
+	name       string
+	optional   bool
+	hasDefault bool // a header param declared with a default value (it stays required)
 }
 
 type insPoint struct {
@@ -450,6 +455,19 @@ func (w *c07Walker) node(n ast.Node, env, loops []string, here, after, outer *in
 	switch n := n.(type) {
 	case *ast.PrintNode:
 		w.exprSite("print-arg", func() ast.Node { return n.Arg }, func(e ast.Node) { n.Arg = e })
+		for _, d := range n.Directives {
+			d := d
+			for j := range d.Args {
+				j := j
+				w.exprSite("directive-arg", func() ast.Node { return d.Args[j] }, func(e ast.Node) { d.Args[j] = e })
+			}
+		}
+	case *ast.CssNode:
+		if n.Expr != nil {
+			w.exprSite("css-expr", func() ast.Node { return n.Expr }, func(e ast.Node) { n.Expr = e })
+		}
+	case *ast.MsgNode:
+		w.msgSites(n.Body.Children())
 	case *ast.IfNode:
 		for _, c := range n.Conds {
 			c := c
@@ -504,6 +522,9 @@ func (w *c07Walker) node(n ast.Node, env, loops []string, here, after, outer *in
 		w.add("undeclared-call-param", "call", func() {
 			n.Params = append(n.Params, &ast.CallParamValueNode{Key: "zzQ", Value: intLitNode(1)})
 		})
+		if n.Data != nil {
+			w.exprSite("call-data-expr", func() ast.Node { return n.Data }, func(e ast.Node) { n.Data = e })
+		}
 		if n.Data == nil {
 			for _, cp := range w.callees[n.Name] {
 				if cp.optional || (n.AllData && has(w.params, cp.name)) {
@@ -524,7 +545,11 @@ func (w *c07Walker) node(n ast.Node, env, loops []string, here, after, outer *in
 				}
 				if cnt == 1 {
 					at := at
-					w.add("missing-required-param", "call", func() {
+					where := "call"
+					if cp.hasDefault {
+						where = "call:param-with-default-value"
+					}
+					w.add("missing-required-param", where, func() {
 						n.Params = append(append([]ast.Node{}, n.Params[:at]...), n.Params[at+1:]...)
 					})
 				}
@@ -556,6 +581,24 @@ func c07Calls(n ast.Node, into map[string]bool) {
 	}
 }
 
+// msgSites: the expressions inside a {msg}: placeholders and {plural}.
+func (w *c07Walker) msgSites(ns []ast.Node) {
+	for _, c := range ns {
+		switch c := c.(type) {
+		case *ast.MsgPlaceholderNode:
+			if p, ok := c.Body.(*ast.PrintNode); ok {
+				w.exprSite("msg-placeholder", func() ast.Node { return p.Arg }, func(e ast.Node) { p.Arg = e })
+			}
+		case *ast.MsgPluralNode:
+			w.exprSite("plural-value", func() ast.Node { return c.Value }, func(e ast.Node) { c.Value = e })
+			for _, pc := range c.Cases {
+				w.msgSites(pc.Body.Children())
+			}
+			w.msgSites(c.Default.Children())
+		}
+	}
+}
+
 type c07Tmpl struct {
 	file   *ast.SoyFileNode
 	idx    int // index of the template node in file.Body
@@ -578,7 +621,7 @@ func c07Templates(files []*ast.SoyFileNode) []c07Tmpl {
 				if d, ok := f.Body[i-1].(*ast.SoyDocNode); ok {
 					t.doc = d
 					for _, p := range d.Params {
-						t.params = append(t.params, c07Param{p.Name, p.Optional})
+						t.params = append(t.params, c07Param{p.Name, p.Optional, false})
 					}
 				}
 			}
@@ -588,7 +631,7 @@ func c07Templates(files []*ast.SoyFileNode) []c07Tmpl {
 					break
 				}
 				t.nhead++
-				t.params = append(t.params, c07Param{hp.Name, hp.Optional})
+				t.params = append(t.params, c07Param{hp.Name, hp.Optional, hp.Default != nil})
 			}
 			ts = append(ts, t)
 		}
@@ -893,6 +936,20 @@ var c07Corpus = []struct {
 	{"index of a param", false, "{namespace ns}\n/** @param p */\n{template .t}\n{index($p)}\n{/template}\n"},
 	{"isLast of a let", false, "{namespace ns}\n/** @param p */\n{template .t}\n{$p}{let $x: 1 /}{if isLast($x)}y{/if}\n{/template}\n"},
 	{"template name defined twice", false, "{namespace ns}\n/** @param p */\n{template .t}\n{$p}\n{/template}\n/** @param p */\n{template .t}\n{$p}\n{/template}\n"},
+	{"header param with a default value omitted by a call", false, "{namespace ns}\n{template .main}\n{call .badge}{param label: 'new' /}{/call}\n{/template}\n{template .badge}\n{@param label: string}\n{@param size: int = 10}\n{$label}{$size}\n{/template}\n"},
+	{"header param with a default value passed by the call", true, "{namespace ns}\n{template .main}\n{call .badge}{param label: 'new' /}{param size: 3 /}{/call}\n{/template}\n{template .badge}\n{@param label: string}\n{@param size: int = 10}\n{$label}{$size}\n{/template}\n"},
+	{"optional header param with a default value omitted by a call", true, "{namespace ns}\n{template .main}\n{call .badge}{param label: 'new' /}{/call}\n{/template}\n{template .badge}\n{@param label: string}\n{@param? size: int = 10}\n{$label}{if $size}y{/if}\n{/template}\n"},
+	{"header param with a default value not covered by data=all", false, "{namespace ns}\n{template .main}\n{@param label: string}\n{call .badge data=\"all\" /}\n{/template}\n{template .badge}\n{@param label: string}\n{@param size: int = 10}\n{$label}{$size}\n{/template}\n"},
+	{"same short name in two namespaces: the callee's own params count", true, "{namespace a.x}\n/** @param p */\n{template .item}\n{$p}{call b.y.item}{param q: $p /}{/call}\n{/template}\n=====\n{namespace b.y}\n/** @param q */\n{template .item}\n{$q}\n{/template}\n"},
+	{"same short name in two namespaces: the other template's param is not declared by the callee", false, "{namespace a.x}\n/** @param p */\n{template .item}\n{$p}{call b.y.item}{param p: $p /}{/call}\n{/template}\n=====\n{namespace b.y}\n/** @param q */\n{template .item}\n{$q}\n{/template}\n"},
+	{"aliased callee, all required params passed", true, "{namespace a.x}\n{alias b.y}\n/** @param p */\n{template .main}\n{call y.item}{param q: $p /}{/call}\n{/template}\n=====\n{namespace b.y}\n/** @param q */\n{template .item}\n{$q}\n{/template}\n"},
+	{"aliased callee, required param missing", false, "{namespace a.x}\n{alias b.y}\n/** @param p */\n{template .main}\n{$p}{call y.item /}\n{/template}\n=====\n{namespace b.y}\n/** @param q */\n{template .item}\n{$q}\n{/template}\n"},
+	{"aliased callee that does not exist", false, "{namespace a.x}\n{alias b.y}\n/** @param p */\n{template .main}\n{$p}{call y.nope /}\n{/template}\n=====\n{namespace b.y}\n/** @param q */\n{template .item}\n{$q}\n{/template}\n"},
+	{"undeclared name in a print directive argument", false, "{namespace ns}\n/** @param p */\n{template .t}\n{$p|truncate:$n}\n{/template}\n"},
+	{"undeclared name in css", false, "{namespace ns}\n/** @param p */\n{template .t}\n{$p}{css $c, foo}\n{/template}\n"},
+	{"undeclared name in a quoted data expression", false, "{namespace ns}\n/** @param p */\n{template .t}\n{$p}{call .u data=\"$m\" /}\n{/template}\n/** @param? q */\n{template .u}\n{if $q}y{/if}\n{/template}\n"},
+	{"undeclared name in a msg placeholder", false, "{namespace ns}\n/** @param p */\n{template .t}\n{msg desc=\"d\"}{$p} and {$zz}{/msg}\n{/template}\n"},
+	{"undeclared name in plural", false, "{namespace ns}\n/** @param p */\n{template .t}\n{msg desc=\"d\"}{plural $n}{case 1}one{default}{$p}{/plural}{/msg}\n{/template}\n"},
 	{"let inside msg", true, "{namespace ns}\n/** @param p */\n{template .t}\n{msg desc=\"d\"}{$p} and {$p}{/msg}\n{/template}\n"},
 }
 
@@ -908,7 +965,10 @@ func runC07(e *env) {
 		var pend []c07Pending
 		var reqs []string
 		for _, c := range c07Corpus {
-			files := []srcFile{{"corpus.soy", c.src}}
+			var files []srcFile
+			for j, part := range strings.Split(c.src, "\n=====\n") {
+				files = append(files, srcFile{fmt.Sprintf("corpus%d.soy", j), part})
+			}
 			trees, err := c07Parse(files)
 			if err != nil {
 				e.res.Fail(hx.Violation{Kind: "mismatch", What: "corpus case does not parse: " + c.name, Case: c07Case{Files: files}, Observed: err.Error()}, "")
@@ -931,7 +991,8 @@ func runC07(e *env) {
 	n := 100 * e.scale
 	for i := 0; i < n; i++ {
 		var tmpls []*gtemplate
-		o := progOpts{depth: 3, directives: true, allParams: true, totalCalls: i%2 == 0, onTemplates: func(ts []*gtemplate) { tmpls = ts }}
+		o := progOpts{depth: 3, directives: true, allParams: true, totalCalls: i%2 == 0, onTemplates: func(ts []*gtemplate) { tmpls = ts },
+			headerDefaults: true, dupShort: i%3 == 0, aliases: i%4 < 2}
 		files, _, _, feats := genBundle(e.rng, o)
 		for f := range feats {
 			e.res.Histogram["feat:"+f]++
